@@ -15,6 +15,7 @@ REQUIRED_THEOREMS = [
     "TapkeeVerif.C05.mds_gram",
     "TapkeeVerif.C05.mds_exact_recovery",
     "TapkeeVerif.C05.isomap_full_k_eq_mds_partial",
+    "TapkeeVerif.C05.isomap_full_k_eq_mds",
     "TapkeeVerif.C05.randomized_exact_on_low_rank",
     "TapkeeVerif.C05.mds_optimal",
     "TapkeeVerif.C05.kpca_optimal",
